@@ -47,7 +47,7 @@ func genC11(r *simrt.Rand, tier string, idx int) *hx.Program {
 				p.Ops = append(p.Ops, hx.Op{K: "flood", S: c})
 			}
 		default:
-			p.Ops = append(p.Ops, hx.Op{K: "restart", S: "c0", A: []int64{int64(r.Intn(2))}})
+			p.Ops = append(p.Ops, hx.Op{K: "restart", S: "c0", A: []int64{int64(r.Intn(3)), int64(r.Intn(6))}})
 		}
 	}
 	return p
@@ -138,9 +138,17 @@ func execC11(t *testing.T, prog *hx.Program, dec *simrt.Decider, verbose bool) *
 						}
 						restarting = true
 						restarts++
-						if op.Arg(0, 0) == 0 {
+						switch op.Arg(0, 0) {
+						case 0:
 							h.stopNode(0)
-						} else {
+						case 2:
+							// the process dies inside a file operation of the cursors partition's log (append,
+							// index write, roll, compaction, checkpoint) that the other clients' requests cause
+							h.armFSCrash(0, 1+int(op.Arg(1, 0))%6)
+							h.pollFor("fs-crash", 2*time.Second, func() bool { return !n.up })
+							h.s.DisarmNodeFSCrash(n.node)
+							h.crashNode(0)
+						default:
 							h.crashNode(0)
 						}
 						simrt.Sleep(100 * time.Millisecond)
